@@ -52,7 +52,7 @@ func (p c04Prop) RunFn() string { return "run_C04" }
 func (p c04Prop) Workers() int  { return 48 }
 func (p c04Prop) Journal() bool { return true }
 func (p c04Prop) Rule() string {
-	return p.s.rule + " PLUS application sends: histories on ONE Client (a TLS session, its loss, a reconnection on which the peer withholds <proceed/> or presents an untrusted certificate, a further good connection) x Insecure x TLS config, with client.Send called from another goroutine while the attempt runs (1-2 sends, triggered by what the server has received) and after each attempt; every stanza carries a unique marker that is looked for in the bytes the server received outside TLS (before <proceed/>, underneath a failed handshake, after it) and in the decrypted stream; for every connection with Insecure=false the clear-text byte log must reduce to stream headers, <starttls/> and </stream:stream>. PLUS stream-management retransmissions: a stream-managed session over verified TLS with 1-3 stanzas sent and never acknowledged, its loss, a held-up reconnection of the same Client (proceed withheld / certificate refused) during which 1-2 acknowledgements <a h/> that leave something held are applied -- routed through the router as the go routine left behind by the old receiver does, or through the exported SendMissingStz -- with or without application sends next to them, optionally a further good connection with sends and an acknowledgement; the markers of the held stanzas are counted in the clear-text and decrypted logs of the server before and after each acknowledgement (retransmitted where?). PLUS WebSocket transport: a loopback HTTPS endpoint (certificate of a test CA trusted by the process) and a plain one; address wss:// or ws://, answer to the opening handshake = chain of 0-10 redirects over {https, http} (301/302/307/308), Insecure on/off; the endpoint reached completes SASL PLAIN + bind and records whether <auth/> arrived on a TLS connection"
+	return p.s.rule + " PLUS application sends: histories on ONE Client (a TLS session, its loss, a reconnection on which the peer withholds <proceed/> or presents an untrusted certificate, a further good connection) x Insecure x TLS config, with client.Send called from another goroutine while the attempt runs (1-2 sends, triggered by what the server has received) and after each attempt; every stanza carries a unique marker that is looked for in the bytes the server received outside TLS (before <proceed/>, underneath a failed handshake, after it) and in the decrypted stream; for every connection with Insecure=false the clear-text byte log must reduce to stream headers, <starttls/> and </stream:stream>. PLUS stream-management retransmissions: a stream-managed session over verified TLS with 1-3 stanzas sent and never acknowledged, its loss, a held-up reconnection of the same Client (proceed withheld / certificate refused) during which 1-2 acknowledgements <a h/> that leave something held are applied -- routed through the router as the go routine left behind by the old receiver does, or through the exported SendMissingStz -- with or without application sends next to them, optionally a further good connection with sends and an acknowledgement; the markers of the held stanzas are counted in the clear-text and decrypted logs of the server before and after each acknowledgement (retransmitted where?). PLUS TLS session resumption: ClientSessionCache in the TLS configuration, servers issuing tickets (TLS 1.2 / 1.3) under one key, 2-3 connections of one client x ServerName {unset, other.example} x certificate valid for {domain, other.example only, both, untrusted issuer} x Insecure x {RootCAs, InsecureSkipVerify}; whether the server saw a session resumed is an input of the model that must not matter. PLUS writers in flight: the client's transport wrapped by a pass-through that suspends the Write of one marked stanza at its entry; Send is called on an established TLS session, then the next connection attempt of the client is started and watched for 150 ms (does the server get a new connection while the write is in flight?), then the sender is released: the stanza must not show up in the clear-text log of the new connection. PLUS WebSocket transport: a loopback HTTPS endpoint (certificate of a test CA trusted by the process) and a plain one; address wss:// or ws://, answer to the opening handshake = chain of 0-10 redirects over {https, http} (301/302/307/308), Insecure on/off; the endpoint reached completes SASL PLAIN + bind and records whether <auth/> arrived on a TLS connection"
 }
 
 func (p c04Prop) Gen(r *rand.Rand, tier string) []interface{} {
@@ -66,6 +66,14 @@ func (p c04Prop) Gen(r *rand.Rand, tier string) []interface{} {
 		out = append(out, c04Case{Sess: &v})
 	}
 	for _, v := range genC04Resend(r, tier) {
+		v := v
+		out = append(out, c04Case{Sess: &v})
+	}
+	for _, v := range genC04Resume(r, tier) {
+		v := v
+		out = append(out, c04Case{Sess: &v})
+	}
+	for _, v := range genC04Held(r, tier) {
 		v := v
 		out = append(out, c04Case{Sess: &v})
 	}
@@ -192,7 +200,17 @@ func (p c04Prop) Run(in interface{}) Sx {
 			fl = ob.flags[ci]
 		}
 		okHere := ci < len(ob.errs) && ob.errs[ci] == nil
-		per = append(per, L(LS(ss), SBytes(res), B(fl[0] && !tlsHere), B(okHere && fl[1] != tlsHere)))
+		// a sender held inside its write while this attempt was started: did the dial overtake it, did its stanza land in
+		// clear text on the new connection; and (environment) whether the server saw the TLS session resumed
+		var hd [2]bool
+		if ci < len(ob.held) {
+			hd = ob.held[ci]
+		}
+		resumed := ci < len(ob.resumed) && ob.resumed[ci]
+		if resumed {
+			hist("tls-session-resumed")
+		}
+		per = append(per, L(LS(ss), SBytes(res), B(fl[0] && !tlsHere), B(okHere && fl[1] != tlsHere), B(hd[0]), B(hd[1]), B(resumed)))
 	}
 	return L(sx, LS(per))
 }
@@ -224,7 +242,7 @@ func (p c04Prop) InputObs(in interface{}, obs Sx) Sx {
 		}
 		plans = append(plans, L(LS(during), Zi(after), LS(rduring), Zi(rafter)))
 	}
-	return L(Z(0), sessInputSx(*c.Sess), LS(plans), tlsDataSx(*c.Sess))
+	return L(Z(0), sessInputSx(*c.Sess), LS(plans), tlsDataSx(*c.Sess, obs))
 }
 
 // tlsDataSx: what the MODEL decides the outcome of StartTLS from (Model/TlsPolicy.start_tls): the client's TLS
@@ -232,23 +250,31 @@ func (p c04Prop) InputObs(in interface{}, obs Sx) Sx {
 // of the configured pool and within its validity; never with a nil TLSConfig: the system roots do not know the test
 // CA) and the names it carries. The decision itself (ServerName defaulting, the second check against Domain,
 // InsecureSkipVerify) is the model's; sessIn.tlsOutcome stays the independent reading used by the direct oracle.
-func tlsDataSx(in sessIn) Sx {
+func tlsDataSx(in sessIn, obs Sx) Sx {
 	sn := in.ServerName
 	if in.TLSMode == 2 {
 		sn = "" // no TLSConfig at all
 	}
 	var certs []Sx
-	for _, c := range in.Conns {
+	for ci, c := range in.Conns {
 		kind := c.Cert
 		if kind == "" {
 			kind = "valid"
 		}
-		trusted := in.TLSMode != 2 && (kind == "valid" || kind == "wronghost")
-		name := srvDomain
-		if kind == "wronghost" {
-			name = "other.example"
+		trusted := in.TLSMode != 2 && (kind == "valid" || kind == "wronghost" || kind == "both")
+		names := []Sx{SBytes(srvDomain)}
+		switch kind {
+		case "wronghost":
+			names = []Sx{SBytes("other.example")}
+		case "both":
+			names = append(names, SBytes("other.example"))
 		}
-		certs = append(certs, L(B(trusted), L(SBytes(name))))
+		// observed: the server saw the TLS session of this connection resumed (an input of the model's decision that must not matter)
+		resumed := false
+		if obs.K == "l" && len(obs.L) == 2 && ci < len(obs.L[1].L) && len(obs.L[1].L[ci].L) >= 7 {
+			resumed = obs.L[1].L[ci].L[6].Z == 1
+		}
+		certs = append(certs, L(B(trusted), LS(names), B(resumed)))
 	}
 	return L(B(in.TLSMode == 1), SBytes(sn), SBytes(srvDomain), LS(certs))
 }
@@ -260,6 +286,19 @@ func (p c04Prop) Oracle(in interface{}, obs Sx) (string, string) {
 	}
 	if obs.K != "l" || len(obs.L) != 2 || obs.L[0].K != "l" || (len(obs.L[0].L) > 0 && obs.L[0].L[0].K == "s") {
 		return p.s.Oracle(*c.Sess, obs) // reports the hang / shape
+	}
+	// ---- C04, a sender in flight while a reconnection starts (judged first: a stray stanza in the middle of the
+	// negotiation derails everything after it)
+	for ci, pc := range obs.L[1].L {
+		if ci >= len(c.Sess.Conns) || !c.Sess.Conns[ci].HeldSend || len(pc.L) < 6 {
+			continue
+		}
+		if pc.L[5].Z == 1 && !c.Sess.Insecure {
+			return fmt.Sprintf("conn %d: a sender that had passed the send gate on the established TLS session and was inside the transport's Write when this reconnection started wrote its stanza IN CLEAR on the new connection (Insecure=false)", ci), "cleartext-stanza-inflight"
+		}
+		if pc.L[4].Z == 1 {
+			return fmt.Sprintf("conn %d: the reconnection dialled its new connection while a write that had passed the send gate was still in flight", ci), "dial-overtakes-write"
+		}
 	}
 	if msg, sig := p.s.Oracle(*c.Sess, obs.L[0]); msg != "" {
 		return msg, sig
@@ -327,8 +366,9 @@ func (p c04Prop) Key(in interface{}) (string, bool) {
 	k, nt := p.s.Key(*c.Sess)
 	var b strings.Builder
 	b.WriteString(k)
+	fmt.Fprintf(&b, "<%v %s %v>", c.Sess.SessionCache, c.Sess.Tickets, c.Sess.HoldWrites)
 	for _, sc := range c.Sess.Conns {
-		fmt.Fprintf(&b, "{%s %d %d %v %v %s %v}", sc.SendDuring, sc.NDuring, sc.SendAfter, sc.AckDuring, sc.AckAfter, sc.AckVia, sc.NoSendDuring)
+		fmt.Fprintf(&b, "{%s %d %d %v %v %s %v %v}", sc.SendDuring, sc.NDuring, sc.SendAfter, sc.AckDuring, sc.AckAfter, sc.AckVia, sc.NoSendDuring, sc.HeldSend)
 	}
 	return b.String(), nt
 }
@@ -462,6 +502,70 @@ func genC04Resend(r *rand.Rand, tier string) []sessIn {
 				}
 			}
 		}
+	}
+	return out
+}
+
+// genC04Resume: TLS session resumption. The client's TLS configuration carries a ClientSessionCache, the server issues
+// session tickets (TLS 1.2: within the handshake; TLS 1.3: after it) under one key for all its connections; 2-3
+// connections of ONE client against the same certificate, over ServerName {unset, other.example} x certificate valid
+// for {the domain, other.example only, both} (+ untrusted): crypto/tls caches the session at handshake time, also when
+// the check against the domain then refuses the certificate, and resumes it on the next connection; the outcome of
+// every connection must be what the configuration and the certificate say, resumed or not.
+func genC04Resume(r *rand.Rand, tier string) []sessIn {
+	var out []sessIn
+	reps := 1
+	if tier == "thorough" {
+		reps = 4
+	}
+	for rep := 0; rep < reps; rep++ {
+		for _, tickets := range []string{"12", "13"} {
+			for _, sn := range []string{"", "other.example"} {
+				for _, cert := range []string{"valid", "wronghost", "both", "untrusted"} {
+					for _, insecure := range []bool{false, true} {
+						for _, tlsmode := range []int{0, 1} {
+							critical := !insecure && tlsmode == 0 && sn != "" && cert != "untrusted"
+							if !critical && tier != "thorough" && r.Intn(4) != 0 {
+								continue
+							}
+							in := sessIn{Insecure: insecure, TLSMode: tlsmode, ServerName: sn, SessionCache: true, Tickets: tickets,
+								SMEnable: r.Intn(2) == 0, Tag: fmt.Sprintf("resume:%s:sn%v:%s", tickets, sn != "", cert)}
+							n := 2 + r.Intn(2)
+							for k := 0; k < n; k++ {
+								g, _ := goodConn(in, shape{tlsOffer: 1 + r.Intn(2), sess: r.Intn(3), smOffer: r.Intn(2) == 0}, "", "", fmt.Sprintf("id%d", k), "false")
+								in.Conns = append(in.Conns, sessConn{Groups: g, Cert: cert})
+							}
+							out = append(out, in)
+						}
+					}
+				}
+			}
+		}
+	}
+	return out
+}
+
+// genC04Held: a sender in flight. A session over verified TLS; then, BEFORE the next connection attempt of the same
+// client is started, a goroutine calls Send: it passes the gate (open: the session is established) and is suspended at
+// the entry of the transport's Write; the attempt is started meanwhile and observed for 150 ms; then the sender goes
+// on. The attempt must wait for the write (it would otherwise swap the transport's connection under it), and the
+// stanza must not show up in clear text on the new connection.
+func genC04Held(r *rand.Rand, tier string) []sessIn {
+	var out []sessIn
+	n := 4
+	if tier == "thorough" {
+		n = 16
+	}
+	for k := 0; k < n; k++ {
+		in := sessIn{Insecure: k%4 == 3, TLSMode: k % 2, HoldWrites: true, SMEnable: r.Intn(2) == 0, Tag: "held-send"}
+		g1, _ := goodConn(in, shape{tlsOffer: 1 + r.Intn(2), sess: r.Intn(3), smOffer: true}, "", "", "idh", "false")
+		conns := []sessConn{{Groups: g1, Cert: "valid", SendAfter: r.Intn(2)}}
+		for j := 1 + r.Intn(2); j > 0; j-- {
+			g, _ := goodConn(in, shape{tlsOffer: 1 + r.Intn(2), sess: r.Intn(3), smOffer: true}, "", "", fmt.Sprintf("idh%d", j), "false")
+			conns = append(conns, sessConn{Groups: g, Cert: "valid", HeldSend: true, SendAfter: r.Intn(2)})
+		}
+		in.Conns = conns
+		out = append(out, in)
 	}
 	return out
 }
